@@ -1,6 +1,6 @@
 //! C17: out-of-domain requests are refused, never answered with a wrong result.
 use super::common::*;
-use crate::engine::explore::{with_sym_rng, Verdict};
+use crate::engine::explore::{sym, with_sym_rng, Verdict};
 use crate::engine::grp::ToyPairing;
 use crate::engine::sf::SF;
 use crate::schemes::*;
@@ -30,6 +30,39 @@ pub fn degree_too_large<S: Sch<P = UP>>(cfg: &Cfg) -> Verdict {
         Ok(Ok(_)) if degree > sup => Verdict::viol("commit-accepted-too-large", format!("commit accepted degree {} with supported degree {}", degree, sup)),
         Ok(Ok(_)) => Verdict::Hold,
         _ if degree <= sup => Verdict::viol("commit-refused-in-domain", format!("commit refused degree {} with supported degree {}", degree, sup)),
+        _ => Verdict::Hold,
+    }
+}
+
+/// open with a committer key that supports fewer coefficients than the polynomial has: the polynomial is
+/// committed under a key trimmed to max_degree (same universal parameters) and opened under the small key
+pub fn open_too_large<S: Sch<P = UP>>(cfg: &Cfg) -> Verdict {
+    let mut big = cfg.clone();
+    big.sz.supported = cfg.sz.max_degree;
+    let (ck_big, _vk, mut rng, _pp) = match keys::<S>(&big) {
+        Ok(k) => k,
+        Err(v) => return v,
+    };
+    let (ck_small, _vk2, _rng2, _pp2) = match keys::<S>(cfg) {
+        Ok(k) => k,
+        Err(v) => return v,
+    };
+    let (lps, coeffs) = polys::<S>(cfg, &mut rng);
+    let mut deg = coeffs[0].len();
+    while deg > 0 && coeffs[0][deg - 1].is_zero() {
+        deg -= 1;
+    }
+    let degree = deg.saturating_sub(1);
+    let sup = if S::NAME == "ipa" { (cfg.sz.supported + 1).next_power_of_two() - 1 } else { cfg.sz.supported };
+    let (comms, states) = match catch(|| PCOf::<S>::commit(&ck_big, &lps, Some(&mut rng))) {
+        Ok(Ok(x)) => x,
+        _ => return Verdict::Discard("commit under the large key failed".into()),
+    };
+    let z = sym("z");
+    let mut sp = sponge(cfg, 1);
+    let res = catch(|| PCOf::<S>::open(&ck_small, &lps, &comms, &z, &mut sp, &states, Some(&mut rng)));
+    match res {
+        Ok(Ok(_)) if degree > sup => Verdict::viol("open-accepted-too-large", format!("open returned a proof for degree {} with supported degree {}", degree, sup)),
         _ => Verdict::Hold,
     }
 }
